@@ -4,11 +4,12 @@ import Optyx.Drive.LP
 import Optyx.Drive.Scipy
 import Optyx.Drive.Analysis
 import Optyx.Drive.Jac
+import Optyx.Drive.State
 
 namespace Optyx.Drive
 
 def handlers : List (String → List Sexp → Option String) :=
-  [handleCore, LPNs.handleLP, LPNs.handleScipy, AnalysisNs.handleAnalysis, JacNs.handleJac]
+  [handleCore, LPNs.handleLP, LPNs.handleScipy, AnalysisNs.handleAnalysis, JacNs.handleJac, handleState]
 
 def dispatch (line : String) : String :=
   match Sexp.parseLine line with
